@@ -73,8 +73,10 @@ def gen_plain(rng, depth=0, ints_only=False):
     r = rng.random()
     if ints_only or depth >= 2 or r < 0.55:
         k = rng.random()
-        if ints_only or k < 0.6:
+        if ints_only or k < 0.5:
             return ['int', rng.randint(-3, 9)]
+        if k < 0.6:
+            return ['float', rng.choice(['1.0', '0.0', '2.0', '-1.5'])]   # ties with ints / bools
         if k < 0.85:
             return ['str', rng.choice(['a', 'b', 'zz', ''])]
         if k < 0.93:
@@ -120,14 +122,16 @@ def gen_root(rng, prop):
             return {'kind': 'val', 'v': ['list', [gen_plain(rng, 1) for _ in range(rng.randint(0, 5))]]}
         return {'kind': 'val', 'v': gen_plain_dict(rng)}
     if prop == 'C03':
-        k = rng.choice(['node', 'node', 'TL1', 'TL2', 'TL3', 'TD1', 'TD2', 'nodes'])
+        k = rng.choice(['node', 'node', 'TL1', 'TL2', 'TL3', 'TD1', 'TD2', 'nodes', 'ptyped',
+                        'ptyped'])
     elif prop == 'C09':
         k = rng.choice(['rec', 'rec', 'cb', 'node'])
     elif prop == 'C07':
         k = rng.choice(['val', 'val', 'node', 'TL1', 'TL2', 'TD1', 'TD2', 'rec', 'cb', 'nodes',
                         'dna', 'dna', 'functor', 'mixed'])
     else:
-        k = rng.choice(['val', 'val', 'val', 'node', 'TL1', 'TL2', 'TD1', 'TD2', 'rec', 'cb', 'nodes'])
+        k = rng.choice(['val', 'val', 'clist', 'clist', 'node', 'TL1', 'TL2', 'TD1', 'TD2', 'rec', 'cb',
+                        'nodes'])
     d = {'kind': k, 'flags': flags}
     if k == 'val':
         v = values.gen_value(rng, max_depth=3, special_floats=False, tuples=rng.random() < 0.3,
@@ -159,6 +163,17 @@ def gen_root(rng, prop):
     elif k == 'TD2':
         d['v'] = ['dict', [[kk, ['int', rng.randint(0, 50)]]
                            for kk in rng.sample(['a', 'b', 'c', 'x'], rng.randint(0, 3))]]
+    elif k == 'ptyped':
+        # a typed container that was explicitly created partial (or complete), as a root
+        d['kind'] = 'val'
+        d['v'] = ['typed', rng.choice(['pd', 'pl']), rng.random() < 0.7]
+    elif k == 'clist':
+        # a list of several small containers (shifting siblings is what list bugs need)
+        d['kind'] = 'val'
+        d['v'] = ['list', [gen_plain(rng, 1) if rng.random() < 0.25 else
+                           (['dict', [['k', ['int', i]]]] if rng.random() < 0.5
+                            else ['list', [['int', i]]])
+                           for i in range(rng.randint(3, 6))]]
     elif k == 'dna':
         d['v'] = gen_dna(rng)
     elif k == 'functor':
@@ -293,8 +308,12 @@ def gen_op(rng, prop):
              'd_setdefault'):
         a['v'] = gen_value_arg(rng, prop)
     if k in ('l_setslice', 'l_getslice'):
-        a['s'] = [rng.choice([None, 0, 1, 2, -1, -2, 5, -7]), rng.choice([None, 0, 1, 3, -1, 9, -8]),
-                  rng.choice([None, None, 1, 2, -1, -2, 3])]
+        if rng.random() < 0.5:
+            a['s'] = [rng.choice([None, 0, 1, 2, -1, -2, 5, -7]), rng.choice([None, 0, 1, 3, -1, 9, -8]),
+                      rng.choice([None, None, 1, 2, -1, -2, 3])]
+        else:       # a step-1 window inside a short list (grow / same / shrink by the values given)
+            st = rng.randint(0, 3)
+            a['s'] = [st, st + rng.randint(0, 4), rng.choice([None, 1])]
     if k in ('l_setslice', 'l_extend', 'l_iadd', 'l_add'):
         a['vs'] = [gen_value_arg(rng, prop) for _ in range(rng.randint(0, 3))]
     if k in ('l_imul', 'l_mul'):
@@ -303,7 +322,8 @@ def gen_op(rng, prop):
         a['i'] = gen_index(rng)         # remove the value found at this index (or a literal)
         a['v'] = gen_plain(rng, 2)
     if k == 'l_sort':
-        a['reverse'] = rng.random() < 0.3
+        a['reverse'] = rng.random() < 0.5
+        a['key'] = rng.choice([None, None, 'size', 'const', 'numeric'])
     if k in ('d_setitem', 'd_setattr', 'd_delitem', 'd_pop', 'd_setdefault', 'o_setattr'):
         a['key'] = gen_key(rng)
         if a.get('v') and a['v'][0] == 'typed':
@@ -339,9 +359,11 @@ def gen_op(rng, prop):
         a['val'] = rng.choice([0, 2, 3, 7, None])
     # scoped flags around the op
     scopes = []
-    if prop in ('C01', 'C03', 'C07', 'C08', 'C09') and rng.random() < (0.5 if prop == 'C08' else 0.25):
+    if prop in ('C01', 'C03', 'C07', 'C08', 'C09') and rng.random() < (0.5 if prop == 'C08' else 0.3):
         for _ in range(rng.randint(1, 3)):
             name = rng.choice(sorted(SCOPES))
+            if prop == 'C01' and rng.random() < 0.5:
+                name = 'notify_on_change'      # C01's own fault dimension: phases removed by flags
             if prop == 'C08':
                 name = rng.choice(['as_sealed', 'allow_writable_accessors', 'as_sealed',
                                    'notify_on_change'])
@@ -736,8 +758,18 @@ def op_l_clear(f, t, a, out):
     t.clear()
 
 
+SORT_KEYS = {
+    # total functions of any element: ties are frequent, elements stay distinguishable
+    'size': lambda x: len(x) if isinstance(x, (list, dict, str)) else -1,
+    'const': lambda x: 0,
+    'numeric': lambda x: float(x) if isinstance(x, (int, float)) and not isinstance(x, bool)
+    else (1.0 if x is True else 0.0),
+}
+
+
 def op_l_sort(f, t, a, out):
-    t.sort(reverse=a.get('reverse', False))
+    key = SORT_KEYS.get(a.get('key'))
+    t.sort(key=key, reverse=a.get('reverse', False))
 
 
 def op_l_reverse(f, t, a, out):
@@ -1332,7 +1364,7 @@ def shrink_candidates(case):
 LIST_PARTS = [('ops',)]
 
 
-QUICK_RUNS = {'C01': 30000, 'C02': 60000, 'C03': 12000, 'C07': 20000, 'C08': 20000, 'C09': 20000}
+QUICK_RUNS = {'C01': 30000, 'C02': 60000, 'C03': 16000, 'C07': 20000, 'C08': 20000, 'C09': 20000}
 _BUDGET_PROP = ['C01']
 
 
@@ -1435,10 +1467,14 @@ class C02Oracle(OracleBase):
         elif k == 'l_clear':
             m.clear()
         elif k == 'l_sort':
-            if len({type(x) for x in m}) > 1 or any(isinstance(x, (list, dict, type(None))) for x in m):
-                res['skip'] = True
-                return None
-            m.sort(reverse=a.get('reverse', False))
+            key = SORT_KEYS.get(a.get('key'))
+            if key is None:
+                numeric = all(isinstance(x, (int, float, bool)) for x in m)
+                if not numeric and (len({type(x) for x in m}) > 1 or any(
+                        isinstance(x, (list, dict, type(None))) for x in m)):
+                    res['skip'] = True      # mixed types without a key: partial reorder on TypeError
+                    return None
+            m.sort(key=key, reverse=a.get('reverse', False))
         elif k == 'l_reverse':
             m.reverse()
         elif k == 'l_iadd':
@@ -1746,7 +1782,7 @@ def schema_errors(root, partial_ok, limit=2):
             present = list(node.sym_keys())
             for k in present:
                 if schema.get_field(k) is None:
-                    errs.append(('undeclared-key', f'{where}: key {k!r} is not declared'))
+                    errs.append((node, 'undeclared-key', f'{where}: key {k!r} is not declared'))
             for kspec, field in schema.items():
                 if not isinstance(kspec, pg.typing.ConstStrKey):
                     continue
@@ -1755,17 +1791,17 @@ def schema_errors(root, partial_ok, limit=2):
                 if v is MISSING or (not isinstance(v, (int, float, str, bool)) and MISSING == v
                                     and not isinstance(v, pg.Symbolic)):
                     if not may_be_partial:
-                        errs.append(('required-missing',
+                        errs.append((node, 'required-missing',
                                      f'{where}: field {name!r} is missing but the value was '
                                      f'never made partial'))
                     continue
                 if field.frozen and not pg.eq(v, field.default_value):
-                    errs.append(('frozen-changed', f'{where}: frozen field {name!r} = {v!r}, '
+                    errs.append((node, 'frozen-changed', f'{where}: frozen field {name!r} = {v!r}, '
                                  f'frozen value {field.default_value!r}'))
                     continue
                 e = _apply_error(field.value, v, may_be_partial)
                 if e:
-                    errs.append(('field-rejected', f'{where}: field {name!r} holds {v!r:.80} '
+                    errs.append((node, 'field-rejected', f'{where}: field {name!r} holds {v!r:.80} '
                                  f'which its spec rejects or changes: {e}'))
             # dynamic keys
             for k in present:
@@ -1774,21 +1810,21 @@ def schema_errors(root, partial_ok, limit=2):
                     v = node.sym_getattr(k)
                     e = _apply_error(f.value, v, may_be_partial)
                     if e:
-                        errs.append(('field-rejected', f'{where}: key {k!r} holds {v!r:.80} '
+                        errs.append((node, 'field-rejected', f'{where}: key {k!r} holds {v!r:.80} '
                                      f'which its spec rejects or changes: {e}'))
         if isinstance(node, pg.List) and node.value_spec is not None:
             spec = node.value_spec
             if len(node) < spec.min_size:
-                errs.append(('below-min-size', f'{where}: len {len(node)} < min_size {spec.min_size}'))
+                errs.append((node, 'below-min-size', f'{where}: len {len(node)} < min_size {spec.min_size}'))
             if node.max_size is not None and len(node) > node.max_size:
-                errs.append(('above-max-size', f'{where}: len {len(node)} > max_size {node.max_size}'))
+                errs.append((node, 'above-max-size', f'{where}: len {len(node)} > max_size {node.max_size}'))
             for i, v in enumerate(node.sym_values()):
                 e = _apply_error(spec.element.value, v, may_be_partial)
                 if e:
-                    errs.append(('element-rejected', f'{where}[{i}] holds {v!r:.80} which the '
+                    errs.append((node, 'element-rejected', f'{where}[{i}] holds {v!r:.80} which the '
                                  f'element spec rejects or changes: {e}'))
                     break
-    return errs
+    return [(c, m, n) for (n, c, m) in errs]
 
 
 def _primitive_error(vspec, v):
@@ -1863,12 +1899,35 @@ class C03Oracle(OracleBase):
                      f'after the history a fresh instance gets other defaults: {now[:300]} '
                      f'(before: {self._defaults0[:300]})', step)
 
+    def before(self, step, op, pre):
+        self._pre_partial = {}
+        self._pre_keep = []
+        for root in self.forest.roots:
+            for n, _, _, _ in values.walk(root):
+                if isinstance(n, pg.Symbolic):
+                    self._pre_partial[id(n)] = n.allow_partial
+                    self._pre_keep.append(n)
+
     def _check_all(self, step, op, out):
+        if not hasattr(self, '_pre_partial'):
+            self._pre_partial = {}
         for ri, root in enumerate(self.forest.roots):
             if not isinstance(root, pg.Symbolic):
                 continue
-            for code, msg in schema_errors(root, self.partial_ok)[:1]:
+            for code, msg, node in schema_errors(root, self.partial_ok)[:1]:
                 status = out.status if out is not None else '-'
+                if status == 'raised' and code == 'required-missing' and \
+                        self._pre_partial.get(id(node)) is True and node.allow_partial is False:
+                    # the rejected call went through List/Dict.custom_apply of this
+                    # (argument) node, which took over the caller's allow_partial=False
+                    # before validation failed: same root cause as the known finding
+                    # "argument mutated before validation"
+                    self.bad('C03.rejected-argument-mutated', 'partial-flag-dropped',
+                             f'after {op["k"]}{json.dumps(op["a"])[:160]} was rejected, the '
+                             f'partial {type(node).__name__} that was (part of) its argument is no '
+                             f'longer marked allow_partial although it still misses a required '
+                             f'field: {msg}', step)
+                    return False
                 if out is not None and status == 'raised' and ri in self.forest.moved:
                     # the rejected *argument* (a detached untyped container handed over
                     # by reference) was bound to the field's spec before validation failed
@@ -2129,6 +2188,13 @@ class C08Oracle(OracleBase):
         self.plan = None
         self._pre_flag = None
         f = self.forest
+        self._flags = {}
+        self._flag_nodes = []
+        for root in f.roots:
+            for n, _, _, path in values.walk(root):
+                if isinstance(n, pg.Symbolic) and not isinstance(n, pg.Ref):
+                    self._flags[id(n)] = (n.is_sealed, n.accessor_writable, list(path))
+                    self._flag_nodes.append(n)
         if op['k'] in ('seal', 'unseal'):
             r, t = f.select(op['t'])
             if t is not None:
@@ -2200,6 +2266,19 @@ class C08Oracle(OracleBase):
 
     def after(self, step, op, out, pre, post, pre_nodes, interrupted):
         k = op['k']
+        # protection flags are changed by seal()/set_accessor_writable() only
+        if k not in ('seal', 'unseal', 'accessor_on', 'accessor_off') and not interrupted:
+            for n in self._flag_nodes:
+                was = self._flags[id(n)]
+                now = (n.is_sealed, n.accessor_writable)
+                attached = n.sym_parent is not None or any(n is r for r in self.forest.roots)
+                if attached and now != was[:2]:
+                    self.bad('C08.flag-changed', f'{k}|{type(n).__name__}',
+                             f'{k}{json.dumps(op["a"])[:120]} ({out.status}) changed the protection '
+                             f'flags of the {type(n).__name__} at {was[2]} from '
+                             f'(sealed={was[0]}, accessor_writable={was[1]}) to '
+                             f'(sealed={now[0]}, accessor_writable={now[1]})', step)
+                    return
         # seal / unseal reach every descendant
         if k in ('seal', 'unseal') and out.status == 'ok' and \
                 getattr(self, '_pre_flag', None) is not None and self._pre_flag != (k == 'seal'):
